@@ -6,7 +6,7 @@
                                - verified WITNESS CHECKER  eucl_check  for the returned position map;
                                - verified NECESSARY CONDITIONS (refuter)  eucl_refuted  = not single-peaked or
                                  not single-crossing, decided by the sibling reference deciders sp_decide / sc_decide;
-                               - no complete decision procedure (it would need exact LP feasibility over Q).
+                               - exact reference decider eucl_decide (Fourier-Motzkin over Q) in Model/EuclidLP.v.
 
    Positions are exact rationals Q: every IEEE double is a dyadic rational; the harness converts the floats
    returned by the implementation with fractions.Fraction(float) and sends (numerator denominator) pairs,
@@ -84,6 +84,3 @@ Definition eucl_refuted (alts : list N) (profile : list (list N)) : bool :=
 (* same verdict with the polynomial single-crossing reference (Proofs/SC.v: sc_conflict_decide_eq) *)
 Definition eucl_refuted_fast (alts : list N) (profile : list (list N)) : bool :=
   negb (sp_decide alts profile) || negb (sc_conflict_decide alts profile).
-
-(* the embedding a generator plants: integer positions scaled by 1/2 (voters may sit on half-integers) *)
-Definition half (z : Z) : Q := Qmake z 2.
